@@ -68,7 +68,23 @@ def handmade(rng, valid_files, tier):
     return out
 
 
-def run_tool(tools, tool, path, work, idx):
+_remeasure_lock = __import__("threading").Lock()
+
+
+def run_tool(tools, tool, path, work, idx, _again=0):
+    """One tool run.  A run that ended normally but whose CPU time looks long is measured again (up to twice, one at a
+    time): on a machine loaded with dozens of sanitizer processes the system time of a 270-byte run was once accounted
+    as 3.4 s (a thorough-tier false alarm); the smallest of the measurements is what the input costs."""
+    ev = _run_tool_once(tools, tool, path, work, idx)
+    if ev["outcome"] in ("ok", "err") and ev["ms"] > 1000 and _again < 2:
+        with _remeasure_lock:
+            ev2 = run_tool(tools, tool, path, work, idx, _again + 1)
+        if ev2["outcome"] == ev["outcome"] and ev2["ms"] < ev["ms"]:
+            ev = ev2
+    return ev
+
+
+def _run_tool_once(tools, tool, path, work, idx):
     args = [str(tools / tool)]
     if tool == "cdns-merge":
         args += ["-o", str(work / f"merge_out_{idx}"), str(path), str(path)]
